@@ -317,8 +317,17 @@ def spell(mol, rng, label_mode=None, explicit_single=0.05, variants=True,
                 rng.shuffle(units)
             else:
                 units = units + branches
+            all_paren = False
+            if ch and ring_at[v] and digits_after_branch and rng.random() < 0.35 * digits_after_branch:
+                # every neighbour in parentheses and a ring digit at the very end: X(...)(...)1 - the chain ends here
+                all_paren = True
+                rings_u = [[("ring", v, key)] for key in ring_at[v]]
+                last_ring = rings_u.pop(rng.randrange(len(rings_u)))
+                units = rings_u + [[("text", "("), ("atom", w, v), ("text", ")")] for w in ch]
+                rng.shuffle(units)
+                units.append(last_ring)
             items = [it for u in units for it in u]
-            if ch:
+            if ch and not all_paren:
                 items.append(("atom", ch[-1], v))
             for it in reversed(items):
                 wstack.append(it)
